@@ -5,6 +5,7 @@ import (
 	"io"
 	"os"
 	"path/filepath"
+	"strings"
 	"sync"
 	"syscall"
 	"time"
@@ -82,10 +83,10 @@ func (fs *LocalFS) CreateDir(n NodeDirectory) error {
 // restores the directory times that were changed by creating their entries.
 func (fs *LocalFS) finalize() error {
 	for _, d := range fs.dirTimes {
-		// The archive may have replaced the directory with something else since,
-		// only touch what still is a directory and never follow a symlink.
-		info, err := os.Lstat(d.path)
-		if err != nil || !info.IsDir() {
+		// The archive may have replaced the directory, or one of the directories
+		// above it, with something else since. Only touch what still is a
+		// directory and is reached without following a symlink.
+		if !fs.isRealDir(d.path) {
 			continue
 		}
 		if err := setPathTime(d.path, d.mtime); err != nil {
@@ -94,6 +95,28 @@ func (fs *LocalFS) finalize() error {
 	}
 	fs.dirTimes = nil
 	return nil
+}
+
+// isRealDir returns true if name, a path at or below the root, is a directory
+// and none of the path elements between the root and name is a symlink.
+func (fs *LocalFS) isRealDir(name string) bool {
+	rel, err := filepath.Rel(fs.Root, name)
+	if err != nil || rel == ".." || strings.HasPrefix(rel, ".."+string(filepath.Separator)) {
+		return false
+	}
+	cur := fs.Root
+	elements := []string{"."}
+	if rel != "." {
+		elements = append(elements, strings.Split(rel, string(filepath.Separator))...)
+	}
+	for _, e := range elements {
+		cur = filepath.Join(cur, e)
+		info, err := os.Lstat(cur)
+		if err != nil || !info.IsDir() {
+			return false
+		}
+	}
+	return true
 }
 
 func (fs *LocalFS) CreateFile(n NodeFile) error {
